@@ -432,8 +432,10 @@ class Stmts:
         names = [p.arg for p in inv_lam.args.args]
         env = {}
         for n in names:
-            if n == 'i':
+            if n == 'it':
                 env[n] = VInt(i_term)
+            elif n.endswith('0') and n[:-1] in self.entry_env:
+                env[n] = self.entry_env[n[:-1]]
             elif extra and n in extra:
                 env[n] = extra[n]
             elif n in st.env and st.env[n] is not None:
@@ -481,8 +483,9 @@ class Stmts:
             # filtered-out element: state unchanged, invariant must still advance
             s_skip = s.fork().add(z3.Not(keep))
             if inv is not None:
+                g = self.eval_invariant(inv, i + 1, s_skip)
                 self.emit(Obligation(self.cur_func_key, 'inv.step', f'loop{ordinal}:skip', props, list(s_skip.pc),
-                                     self.eval_invariant(inv, i + 1, s_skip), origin=f'loop {ordinal} invariant preserved (filtered element)',
+                                     g, origin=f'loop {ordinal} invariant preserved (filtered element)',
                                      path_kind='loop', route=route))
             s.add(keep)
         self.assign_target(node.target, elem, s, node)
@@ -494,8 +497,9 @@ class Stmts:
         for pk, (kind, v, s2) in enumerate(body_outs):
             if kind in ('fall', 'continue'):
                 if inv is not None:
+                    g = self.eval_invariant(inv, i + 1, s2)
                     self.emit(Obligation(self.cur_func_key, 'inv.step', f'loop{ordinal}:p{pk}', props, list(s2.pc),
-                                         self.eval_invariant(inv, i + 1, s2), origin=f'loop {ordinal} invariant preserved by the body',
+                                         g, origin=f'loop {ordinal} invariant preserved by the body',
                                          path_kind='loop', route=route))
             elif kind == 'break':
                 outs.append(('fall', None, s2))
@@ -521,8 +525,9 @@ class Stmts:
         assigned = self.assigned_names(node.body)
         props = self.cur_props
         outs = []
+        g0 = self.eval_invariant(inv, z3.IntVal(0), st)
         self.emit(Obligation(self.cur_func_key, 'inv.init', f'loop{ordinal}', props, list(st.pc),
-                             self.eval_invariant(inv, z3.IntVal(0), st), origin=f'while {ordinal} invariant on entry', path_kind='loop', route='L2'))
+                             g0, origin=f'while {ordinal} invariant on entry', path_kind='loop', route='L2'))
 
         def havoc_state(tag):
             s = st.fork()
@@ -545,8 +550,9 @@ class Stmts:
             outs.append(('fall', None, s_out))
             for pk, (kind, v, s2) in enumerate(self.exec_block(node.body, s_in)):
                 if kind in ('fall', 'continue'):
+                    g = self.eval_invariant(inv, z3.IntVal(0), s2)
                     self.emit(Obligation(self.cur_func_key, 'inv.step', f'loop{ordinal}:p{pk}', props, list(s2.pc),
-                                         self.eval_invariant(inv, z3.IntVal(0), s2), origin=f'while {ordinal} invariant preserved',
+                                         g, origin=f'while {ordinal} invariant preserved',
                                          path_kind='loop', route='L2'))
                     if var is not None:
                         v1 = self.toInt(self.eval_clause_sv(var, s2), s2)
@@ -565,7 +571,10 @@ class Stmts:
         saved = (self.cur_module, self.spec_mode)
         self.cur_module, self.spec_mode = '$spec', True
         try:
-            r, _ = self.ev1(lam.body, State(env, st.pc, st.notes))
+            n0 = len(st.pc)
+            r, s2 = self.ev1(lam.body, State(env, list(st.pc), st.notes))
+            for f in s2.pc[n0:]:
+                st.pc.append(f)
             return r
         finally:
             self.cur_module, self.spec_mode = saved
